@@ -438,6 +438,7 @@ func sharedWork(file []byte) {
 	// they share: every call may touch its own band only, whatever the image types
 	bandWork()
 	crowdWork()
+	ownResultWork()
 	var wg sync.WaitGroup
 	for k := 0; k < 4; k++ {
 		wg.Add(1)
@@ -532,6 +533,91 @@ func crowdWork() {
 			fmt.Printf("VALUE-MISMATCH target=srgb.LineariseImage(crowd): caller %d's result differs from the call executed alone\n", c)
 			sharedWorkFailed = true
 			return
+		}
+	}
+}
+
+// ownResultWork: goroutines convert one image they share and then work on what they got back, in
+// place: a result belongs to the caller that asked for it (and the shared input is not touched).
+func ownResultWork() {
+	r := image.Rect(0, 0, 9, 11)
+	mk := []func() image.Image{
+		func() image.Image { // opaque RGBA (what image/png returns for truecolour files)
+			m := image.NewRGBA(r)
+			for i := range m.Pix {
+				m.Pix[i] = byte(i * 13)
+				if i%4 == 3 {
+					m.Pix[i] = 255
+				}
+			}
+			return m
+		},
+		func() image.Image {
+			m := image.NewNRGBA(r)
+			for i := range m.Pix {
+				m.Pix[i] = byte(i*7 + 3)
+			}
+			return m
+		},
+		func() image.Image {
+			m := image.NewGray(r)
+			for i := range m.Pix {
+				m.Pix[i] = byte(i * 5)
+			}
+			return m
+		},
+	}
+	convs := []func(image.Image) draw.Image{
+		func(m image.Image) draw.Image { return prism.ConvertImageToNRGBA(m, 2) },
+		func(m image.Image) draw.Image { return prism.ConvertImageToRGBA(m, 2) },
+		func(m image.Image) draw.Image { return prism.ConvertImageToRGBA64(m, 2) },
+	}
+	pix := func(m image.Image) []byte {
+		switch v := m.(type) {
+		case *image.RGBA:
+			return v.Pix
+		case *image.NRGBA:
+			return v.Pix
+		case *image.RGBA64:
+			return v.Pix
+		case *image.Gray:
+			return v.Pix
+		}
+		return nil
+	}
+	for si, mkSrc := range mk {
+		for ci, conv := range convs {
+			if (si == 0 && ci == 1) || (si == 1 && ci == 0) {
+				continue // already of the target type: the documented result is the input itself
+			}
+			shared := mkSrc()
+			before := append([]byte{}, pix(shared)...)
+			alone := conv(mkSrc())
+			srgb.LineariseImage(alone, alone, 1)
+			const callers = 4
+			outs := make([]draw.Image, callers)
+			var wg sync.WaitGroup
+			for c := 0; c < callers; c++ {
+				wg.Add(1)
+				go func(c int) {
+					defer wg.Done()
+					outs[c] = conv(shared)
+					srgb.LineariseImage(outs[c], outs[c], 1+c%2)
+				}(c)
+			}
+			wg.Wait()
+			if !bytes.Equal(pix(shared), before) {
+				fmt.Printf("VALUE-MISMATCH target=prism.ConvertImage(own result) %T: the shared input changed while callers worked on their results\n", shared)
+				sharedWorkFailed = true
+				return
+			}
+			for c := range outs {
+				if !bytes.Equal(pix(outs[c]), pix(alone)) {
+					fmt.Printf("VALUE-MISMATCH target=prism.ConvertImage(own result) %T -> %T: caller %d's linearised result differs from the same steps executed alone\n", shared, outs[c], c)
+					sharedWorkFailed = true
+					return
+				}
+			}
 		}
 	}
 }
